@@ -53,7 +53,7 @@ func makeProbe(h *harness, k int) *script {
 		add("getmp", varintW(0xffffffff, 5))
 	case 3:
 		ver()
-		s.Msgs = append(s.Msgs, wireMsg{Cmd: "ping", Pl: nil, Tag: "fixed", Encrypt: true})
+		s.Msgs = append(s.Msgs, wireMsg{Cmd: "ping", Pl: []byte{0}, Tag: "fixed", Encrypt: true})
 	case 4:
 		ver()
 		b := h.newTipBlock(nil)
